@@ -263,6 +263,23 @@ theorem foreign_variable_refused (t : Tmpl) (p : POp) (hp : p.isParam = true)
   unfold tstep
   simp [hp, hv]
 
+/-- Finding F40 (owned by C09, repaired in /repo): **any refused call that carries a variable
+leaves the template exactly as it was** — unknown variable or failed store-time check alike; in
+particular a sequence that was not parametrized does not become so (`verify_parametrization`
+puts `_building` back when the call raises). -/
+theorem refused_call_keeps_template (t : Tmpl) (p : POp) (hp : p.isParam = true) (e : PErr)
+    (h : (tstep t p).2 = some e) : (tstep t p).1 = t := by
+  unfold tstep at h ⊢
+  by_cases hv : varsDeclared t p = true
+  · simp only [hp, hv, Bool.not_true, Bool.and_false, Bool.false_eq_true, if_false, if_true] at h ⊢
+    split
+    · rfl
+    · rename_i hs
+      rw [hs] at h
+      split at h <;> cases h
+  · have hv' : varsDeclared t p = false := by simpa using hv
+    simp [hp, hv']
+
 /-- Observation (not a violation of the property as stated, which quantifies over
 templates that exist): store-time checks CAN reject a call that the direct construction
 with the evaluated values accepts — `target_index` with an array variable of size 2 on a
